@@ -1,6 +1,7 @@
 package rules
 
 import (
+	"fmt"
 	"go/constant"
 	"go/token"
 	"go/types"
@@ -1101,6 +1102,123 @@ func runC14(c *Ctx) {
 			}
 		}
 		c.Decide("C14.R4", capFn, "Cap = len(buf)-1", nil, ok, "Cap() is not len(buf)-1")
+	}
+	// R7: a readable segment whose end is chosen by the order of the two indices ("up to the write index if it lies
+	// ahead, else up to the end of the array") is only taken when the buffer is known to be non-empty: with read index ==
+	// write index the choice says "up to the end of the array" about a buffer that holds nothing. The test has to hold
+	// at the segment, i.e. on every path from the entry AND from every advance of the read index.
+	{
+		nonEmpty := func(f ir.Fact) bool {
+			cm, ok := f.Cmp()
+			if !ok {
+				return false
+			}
+			x, y, op := cm.X, cm.Y, cm.Op
+			if _, isC := ir.ConstInt(x); isC {
+				x, y, op = y, x, ir.SwapOp(op)
+			}
+			if kk, isC := ir.ConstInt(y); isC && k.lenCall(x) {
+				return (op == token.GTR && kk >= 0) || (op == token.NEQ && kk == 0) || (op == token.GEQ && kk >= 1)
+			}
+			_, xr := loadOfField(x, k.rIdx)
+			_, xw := loadOfField(x, k.wIdx)
+			_, yr := loadOfField(y, k.rIdx)
+			_, yw := loadOfField(y, k.wIdx)
+			return op == token.NEQ && ((xr && yw) || (xw && yr))
+		}
+		n := 0
+		for _, fn := range scope {
+			fn := fn
+			ir.Instrs(fn, func(in ssa.Instruction) {
+				sl, ok := in.(*ssa.Slice)
+				if !ok || !k.bufDerived(sl.X) || sl.Low == nil || sl.High == nil {
+					return
+				}
+				if _, isR := loadOfField(sl.Low, k.rIdx); !isR {
+					return
+				}
+				toW := false
+				for _, o := range ir.Origins(sl.High) {
+					if _, isW := loadOfField(o, k.wIdx); isW {
+						toW = true
+					}
+				}
+				if !toW {
+					return
+				}
+				n++
+				q := ir.Query{Fn: fn, BlockFact: nonEmpty, Target: func(x ssa.Instruction) bool { return x == in }}
+				bad := ""
+				if w, err := q.Find(); err != nil || w != nil {
+					bad = "from the entry of " + fn.Name()
+				}
+				ir.Instrs(fn, func(x ssa.Instruction) {
+					if _, isAdv := k.idxStore(x, k.rIdx); !isAdv || bad != "" {
+						return
+					}
+					q2 := q
+					q2.From = x
+					if w, err := q2.Find(); err != nil || w != nil {
+						bad = "after the read index was advanced (" + c.P.Pos(x.Pos()) + ")"
+					}
+				})
+				c.Decide("C14.R7", fn, "index-ordered segment taken from a non-empty buffer only", in, bad == "",
+					"the segment 'from the read index up to the write index or the end of the array' is taken without a test that the buffer is not empty "+bad+": with read index == write index the empty array counts as data, the read index runs past the write index and Len() reports phantom elements")
+			})
+		}
+		if n == 0 {
+			c.Decide("C14.R7", read, "index-ordered segment taken from a non-empty buffer only", nil, true, "")
+		}
+	}
+	// R8: the helpers the buffer hands parts of its backing array to (to clear released slots) stay inside the slice they
+	// are given: a re-slice of the parameter with a constant bound is dominated by a test that the slice is that long -
+	// s[:64] of a shorter slice silently extends up to the capacity, i.e. over the live elements behind the released part
+	{
+		seen := map[*ssa.Function]bool{}
+		n := 0
+		for _, fn := range scope {
+			ir.Instrs(fn, func(in ssa.Instruction) {
+				call, ok := in.(*ssa.Call)
+				if !ok {
+					return
+				}
+				cal := ir.StaticCallee(call)
+				if cal == nil || len(cal.Blocks) == 0 || seen[cal] || !k.inPkg(cal) {
+					return
+				}
+				for ai, a := range call.Call.Args {
+					if !k.bufDerived(a) || ai >= len(cal.Params) {
+						continue
+					}
+					if _, isSl := a.(*ssa.Slice); !isSl {
+						continue
+					}
+					seen[cal] = true
+					prm := cal.Params[ai]
+					ir.Instrs(cal, func(x ssa.Instruction) {
+						sl, isSl := x.(*ssa.Slice)
+						if !isSl || ir.Resolve(sl.X) != ssa.Value(prm) {
+							return
+						}
+						for _, bnd := range []ssa.Value{sl.Low, sl.High} {
+							if bnd == nil {
+								continue
+							}
+							kk, isC := ir.ConstInt(bnd)
+							if !isC || kk == 0 {
+								continue
+							}
+							n++
+							c.Decide("C14.R8", cal, "constant re-slice stays within the slice it was given", x, lenLowerBound(x.Block(), sl.X) >= kk,
+								fmt.Sprintf("%s re-slices the part of the backing array it was given with the constant bound %d without a test that the part is that long: a shorter part is silently extended up to its capacity and the live elements behind the released slots are overwritten (or the call panics at the end of the array)", cal.Name(), kk))
+						}
+					})
+				}
+			})
+		}
+		if n == 0 {
+			c.Decide("C14.R8", read, "constant re-slice stays within the slice it was given", nil, true, "")
+		}
 	}
 }
 
